@@ -11,6 +11,7 @@ import (
 
 	"github.com/deadsy/sdfx/sdf"
 	v2 "github.com/deadsy/sdfx/vec/v2"
+	"github.com/deadsy/sdfx/vec/v2i"
 	v3 "github.com/deadsy/sdfx/vec/v3"
 
 	"verif/lib/vlib"
@@ -78,6 +79,8 @@ type blend struct {
 	name string
 	f    sdf.MinFunc
 }
+
+var farAway = at(circle(0.5), 40, 40)
 
 func main() {
 	c := vlib.Start("C16")
@@ -232,6 +235,13 @@ func main() {
 		{"rot30b1x.5@0.5,1.5", at(rb, 0.5, 1.5)},
 		{"line2r.25@0,-1.5", at(line, 0, -1.5)},
 		{"c1@2.5,-1", at(circle(1), 2.5, -1)},
+		// operands that are themselves placed sub-assemblies: their boxes come from the box arithmetic of the
+		// transforms (rotation of an off-centre box, partial fans, arrays)
+		{"rot40(b1.5x.4@1.5,0)", sdf.Transform2D(at(mustBox(1.5, 0.4, 0), 1.5, 0), sdf.Rotate2d(sdf.DtoR(40)))},
+		{"rot-110(c.3@2,0)@-.5,-.5", at(sdf.Transform2D(at(circle(0.3), 2, 0), sdf.Rotate2d(sdf.DtoR(-110))), -0.5, -0.5)},
+		{"fan3x50(b1.2x.3@1.6,0)", sdf.RotateUnion2D(at(mustBox(1.2, 0.3, 0), 1.6, 0), 3, sdf.Rotate2d(sdf.DtoR(50)))},
+		{"fan2x-70(c.25@2.25,0)", sdf.RotateUnion2D(at(circle(0.25), 2.25, 0), 2, sdf.Rotate2d(sdf.DtoR(-70)))},
+		{"array2x2(c.2)@-2.5,1", at(sdf.Array2D(circle(0.2), v2i.Vec{X: 2, Y: 2}, v2.Vec{X: 1, Y: 1.5}), -2.5, 1)},
 	}
 	blends := []blend{{"min", nil}, {"PolyMin(1/8)", sdf.PolyMin(0.125)}, {"PolyMin(1/2)", sdf.PolyMin(0.5)},
 		{"PolyMin(2)", sdf.PolyMin(2)}, {"PolyMin(5)", sdf.PolyMin(5)}, {"RoundMin(1/2)", sdf.RoundMin(0.5)},
@@ -280,7 +290,12 @@ func main() {
 		var n int64
 		interesting := false
 		for _, bl := range blends {
-			u0 := sdf.Union2D(ops...)
+			// the argument slice is the caller's and is written again after construction
+			arg := append([]sdf.SDF2{}, ops...)
+			u0 := sdf.Union2D(arg...)
+			for i := range arg {
+				arg[i] = farAway
+			}
 			u, ok := u0.(*sdf.UnionSDF2)
 			if !ok {
 				c.HarnessError("Union2D of %d operands is not *UnionSDF2", len(ops))
